@@ -97,8 +97,9 @@ Restart(d) ==
 
 (* Handler result. persist: backup_state was called (always before `out` is sent).          *)
 (* watch: value written to the proposer watch, NoJust if untouched. timer: deadline re-armed. *)
+(* prs = the state that is written durably when `persist` (the final state of the step, unless a weakening says otherwise) *)
 Res(ok, rs, store, persist, out, watch, timer) ==
-    [ok |-> ok, rs |-> rs, store |-> store, persist |-> persist, out |-> out, watch |-> watch, timer |-> timer]
+    [ok |-> ok, rs |-> rs, store |-> store, persist |-> persist, out |-> out, watch |-> watch, timer |-> timer, prs |-> rs]
 Reject(rs, store) == Res(FALSE, rs, store, FALSE, <<>>, NoJust, FALSE)
 
 (***************************************************************************)
@@ -171,8 +172,9 @@ OnProposal(self, rs, store, m) ==
         rs1   == [rs EXCEPT !.view = vw, !.phase = "commit", !.hv = hv1,
                             !.props = IF m.p # "none" THEN rs.props \cup {[num |-> imp.num, pay |-> m.p]} ELSE rs.props]
         a     == ProcJust(rs1, store, m.j)
+        r0    == Res(TRUE, a.rs, a.store, TRUE, <<CommitMsg(self, vote)>>, NoJust, FALSE)
     IN IF fresh /\ ldr /\ m.valid /\ payOk
-       THEN Res(TRUE, a.rs, a.store, TRUE, <<CommitMsg(self, vote)>>, NoJust, FALSE)
+       THEN (IF Weaken = "backup_before_justification" THEN [r0 EXCEPT !.prs = rs1] ELSE r0)   \* weakened: persists before processing the certificate
        ELSE Reject(rs, store)
 ProposalBlocked(rs, store, m) ==
     LET rs1 == [rs EXCEPT !.props = IF m.p # "none" THEN rs.props \cup {[num |-> Implied(m.j).num, pay |-> m.p]} ELSE rs.props]
@@ -213,7 +215,10 @@ CommitBlocked(rs, store, m) ==
 DeriveTQ(vw, reports) ==
     LET voters(h) == {e.s : e \in {x \in reports : x.hv # NoVote /\ Hdr(x.hv) = h}}
         hdrs == {Hdr(e.hv) : e \in {x \in reports : x.hv # NoVote}}
-        big  == {h \in hdrs : WeightOf(voters(h)) >= SubQuorumW}
+        (* weakened: the tally is kept per (view, header), so votes for one block cast in different views do not add up *)
+        votersV(v) == {e.s : e \in {x \in reports : x.hv = v}}
+        bigV == {Hdr(v) : v \in {w \in {e.hv : e \in {x \in reports : x.hv # NoVote}} : WeightOf(votersV(w)) >= SubQuorumW}}
+        big  == IF Weaken = "high_vote_tally_by_view" THEN bigV ELSE {h \in hdrs : WeightOf(voters(h)) >= SubQuorumW}
         qs   == {e.hq : e \in {x \in reports : x.hq # NoVote}}
         hq   == IF qs = {} THEN NoVote
                 ELSE IF Weaken = "high_qc_min_instead_of_max"
